@@ -411,10 +411,10 @@ def run(ctx):
             continue   # a real number was formatted ('?'): outside this check
         dcode = l.split(" ")[2]
         if len(lines) % 6 == 5:
-            # the same document with some containers (also the root) reached through a pointer-to-value (one hop: IsObject() and friends look through exactly one):
+            # the same document with some containers (also the root) reached through 1-3 pointer-to-value hops:
             # a pointer is transparent for every read, so the expected text is unchanged
             import re as _re
-            dcode = ",".join(("p," + tk) if _re.match(r"^[ao]\d+$", tk) and ctx.rng.random() < 0.4 else tk
+            dcode = ",".join((ctx.rng.choice(["p,", "p,", "p,p,", "p,p,p,"]) + tk) if _re.match(r"^[ao]\d+$", tk) and ctx.rng.random() < 0.4 else tk
                              for tk in dcode.split(","))
         lines.append("tplrender %s %s %s" % (w, dcode, t[1]))
         expected.append("R " + t[3])
